@@ -74,7 +74,13 @@ theorem below_modEdges (d : Desc) (m : Nat) (md : ModD) : (modEdges d m md).all 
   · simp [modRefEdges, belowOk, below, fld]
   · cases md.parent with
     | none => simp
-    | some p => simp only; split <;> simp [modRefEdges, belowOk, below, fld]
+    | some p =>
+      simp only
+      split
+      · simp only [List.all_append, Bool.and_eq_true]
+        refine ⟨by simp [modRefEdges, belowOk, below, fld], ?_⟩
+        split <;> simp [modRefEdges, belowOk, below, fld]
+      · simp
   · simp [belowOk, below, fld]
   · simp [List.all_map, belowOk, below, fld]
   · simp [belowOk, below, fld]
